@@ -37,11 +37,16 @@ def write_replay(prop, case, cfg, kind, detail, src_path, inp=None):
         line = ' '.join(toks)
         open(os.path.join(d, 'input_k.txt'), 'w').write(line + '\n')
         open(os.path.join(d, 'input_r.txt'), 'w').write(' '.join(['0', 'r'] + toks[2:]) + '\n')
-    sh = ['#!/bin/sh', '# rebuilds the harness against the current tree and prints kernel and reference outputs', 'cd "$(dirname "$0")"',
-          'clang++-14 ' + ' '.join(flags) + ' -o /tmp/fsv_replay_$$ harness.cpp || { echo "COMPILE-FAIL"; exit 1; }',
-          'echo kernel:; /tmp/fsv_replay_$$ < input_k.txt', ]
-    if case.ref_src is not None: sh += ['echo reference:; /tmp/fsv_replay_$$ < input_r.txt']
-    sh += ['rm -f /tmp/fsv_replay_$$']
+    sh = ['#!/bin/sh', '# rebuilds the harness against the current tree (FASTOR_ROOT, default /repo) and replays the counterexample:',
+          '# exit 1 = reproduced (kernel crashes on guard-page buffers, or kernel and reference outputs differ), exit 0 = not reproduced',
+          'cd "$(dirname "$0")"', 'B=$(mktemp /tmp/fsv_replay_XXXXXX)',
+          'clang++-14 ' + ' '.join(flags) + ' -o $B harness.cpp || { echo "REPRODUCED: harness does not compile in this configuration"; rm -f $B; exit 1; }',
+          'K=$($B < input_k.txt); kc=$?', 'echo "kernel   : $K"']
+    if case.ref_src is not None: sh += ['R=$($B < input_r.txt)', 'echo "reference: $R"']
+    sh += ['rm -f $B', 'if [ $kc -ne 0 ]; then echo "REPRODUCED: kernel run died with status $kc (buffers are flush against guard pages)"; exit 1; fi']
+    if case.ref_src is not None:
+        sh += ['if [ "$K" != "$R" ]; then echo "REPRODUCED: kernel and reference outputs differ (hex, little-endian elements' + ('; exact-real domain: compare numerically' if getattr(case, 'dom', '') == 'real' else '') + ')"; exit 1; fi']
+    sh += ['echo "not reproduced on this tree"; exit 0']
     open(os.path.join(d, 'replay.sh'), 'w').write('\n'.join(sh) + '\n'); os.chmod(os.path.join(d, 'replay.sh'), 0o755)
     return d
 
